@@ -9,6 +9,7 @@ import (
 	"regexp"
 	"sort"
 	"strings"
+	"sync"
 
 	"golang.org/x/tools/go/ssa"
 )
@@ -340,7 +341,30 @@ func (t *FnTrans) obligeNamed(name, kind, goal, note string) {
 	if kind == "post" || kind == "frame" || kind == "owed.exit" {
 		return // nothing follows a return on this path: assuming the goal would only add noise to later VCs
 	}
+	if isKnownFindingObligation(o.Name) {
+		// an obligation recorded as a known finding fails on the current tree: assuming it would make everything behind
+		// it on the path vacuous (and hide other violations there); the path continues without the fact
+		t.abstr["known finding "+o.Name+": the failing assertion is not assumed on the rest of the path"] = true
+		return
+	}
 	t.assume(goal)
+}
+
+var knownFindingObls []string
+var knownFindingOnce sync.Once
+
+func isKnownFindingObligation(name string) bool {
+	knownFindingOnce.Do(func() {
+		for _, k := range loadKnown() {
+			knownFindingObls = append(knownFindingObls, k.Obl)
+		}
+	})
+	for _, g := range knownFindingObls {
+		if globMatch(g, name) {
+			return true
+		}
+	}
+	return false
 }
 
 func (t *FnTrans) cover(name, cond string) {
